@@ -120,7 +120,7 @@ CHECKS["C14"] = {
     "jobs": [
         {"pkg": MUX, "run": "^TestVerif_C14_Datagrams$", "checks": {"quick": 2000, "thorough": 300000}, "shards": {"thorough": 16}, "timeout": {"quick": 300}},
         {"pkg": MUX, "run": "^TestVerif_C14_Concurrent$", "realtime": True, "checks": {"quick": 100, "thorough": 6000}, "shards": {"thorough": 8}, "timeout": {"quick": 900}},
-        {"pkg": SERVER, "run": "^TestVerif_C14_UDPRig$", "realtime": True, "checks": {"quick": 6, "thorough": 400}, "shards": {"thorough": 4}, "timeout": {"quick": 300}},
+        {"pkg": SERVER, "run": "^TestVerif_C14_UDPRig$", "realtime": True, "checks": {"quick": 10, "thorough": 400}, "shards": {"thorough": 4}, "timeout": {"quick": 300}},
     ],
 }
 
